@@ -21,6 +21,18 @@ from . import ringgen
 
 PROP = 'C09'
 MAX_LEN = 800
+LEVEL = 'exploration'
+ASSUMPTIONS = [
+    'the step budget B(n) = 2e6 + 2e4*n LINE steps (>= 50x the worst shipped '
+    'fragment) separates slow from hung; C extensions are not clocked',
+    'the hand-written generator mirrors the documented RING grammar; texts '
+    '<= 800 characters',
+    'exception types allowed to escape: RINGSyntaxError (position inside the '
+    'text), RINGReaderError, NotImplementedError',
+]
+COMPONENTS = {
+    'real': ['pgradd.RINGParser (parser, grammar, both readers)', 'RDKit atom/bond/query construction'],
+    'stubs': ['clock (LINE-step counter via sys.monitoring)', 'Parser.ParseState replaced by a recording subclass (observes the final stream position)', 'the character stream itself is the fault surface (EOF / token / byte faults)']}
 
 _state = {}
 
@@ -373,8 +385,13 @@ def summarise(all_results):
                 agg['conflicts'].append(th)
             agg['texts'][th] = ev
         agg['nontrivial_texts'].update(r['nontrivial_texts'])
-        if len(agg['samples']) < 6:
+        if len(agg['samples']) < 6 and str(r['id']).startswith('mut'):
+            agg['samples'].extend(r['samples'][:2])
+    if not agg['samples']:
+        for r in all_results:
             agg['samples'].extend(r['samples'][:1])
+            if len(agg['samples']) >= 4:
+                break
     if agg['conflicts']:
         raise RuntimeError('same text, different outcome/steps: %r'
                            % agg['conflicts'][:5])
